@@ -25,7 +25,9 @@ def gen(rng, n, kind=None):
     elif kind == "garbage":
         f["len"], f["seed"] = rng.choice((1, 3, 16, 200, 5000)), rng.randrange(1 << 30)
     elif kind == "lying_header":
-        f["value"] = rng.choice((10 ** 6, 10 ** 9, 10 ** 12, 2 ** 31 - 1, 2 ** 40, 2 ** 62))
+        # sizes a decoder either handles quickly or refuses at once; the range in between (1e9 .. 2**31) only makes a
+        # decoder slow in proportion to the lie, which the statement says nothing about
+        f["value"] = rng.choice((10 ** 6, 10 ** 7, 10 ** 12, 2 ** 40, 2 ** 62))
     return f
 
 
